@@ -10,7 +10,7 @@ Vocabulary (PcProofs/PsCoreCross.lean): `numOf L p` = the number of global bit `
 `q = 30P + ρ_g` relative to a block starting at `Lb` denotes the pending multiple `q·u`" (`u ≡ w_j mod M`, `idx = size·g + j`,
 byte of `q·u` = `m`); `Hit M q L u u' p` = "bit `p` is a multiple `q·t` with `u ≤ t < u'`, `t` coprime to `M`".
 -/
-import PcProofs.PsCoreCarry
+import PcProofs.PsCoreExtract
 
 namespace Pc.C18Core
 open Pc.PsCore Pc.PsWheelSpec
@@ -100,6 +100,23 @@ theorem big_visit_correct (q L log2 : ℕ) (hL : 30 ∣ L) (hlog : log2 ≤ 23) 
     (∀ t, u < t → t < u + (Gen.psWheel210.getD p.wi (0, 0, 0, 0)).2.1 → ¬ Nat.Coprime t 210) :=
   big_step q L log2 hL hlog hq32 p u hp hsp s
 
+/-- **Extraction, one word** (`Erat::nextPrime`, `bitValues`, the `bits &= bits - 1` scan): the numbers read from the 64-bit
+    word `w` of a segment with low `L` are the numbers of its set bits, in increasing order. -/
+theorem extraction_word_correct (s : Bytes) (hs : ∀ i, s.getD i 0 < 256) (L w : ℕ) :
+    (wordPrimes (Pc.Sieve.word64 s w) (L + 240 * w)).Pairwise (· < ·) ∧
+    ∀ n, n ∈ wordPrimes (Pc.Sieve.word64 s w) (L + 240 * w) ↔ ∃ t < 64, bitAt s (64 * w + t) = true ∧ n = numOf L (64 * w + t) :=
+  wordPrimes_sorted_mem s hs L w
+
+/-- **Extraction, whole segment** (the word loop of `fillNextPrimes` / `fillPrevPrimes` / `SievingPrimes::fill`, 8 bytes and
+    240 numbers per step, reading the zero padding after the last byte): the list produced from a segment with low `L` is
+    strictly increasing and contains exactly the numbers of the set bits of the sieve array. -/
+theorem extraction_segment_correct (s : Bytes) (hs : ∀ i, s.getD i 0 < 256) (L : ℕ) :
+    (sievePrimes s (s.size / 8 + 1) 0 L).Pairwise (· < ·) ∧
+    (∀ n, n ∈ sievePrimes s (s.size / 8 + 1) 0 L ↔ ∃ p, bitAt s p = true ∧ n = numOf L p) := by
+  have h := sievePrimes_spec s hs L (s.size / 8 + 1) 0 (by omega)
+  simp only [Nat.mul_zero, Nat.add_zero, Nat.zero_le, true_and] at h
+  exact h
+
 /-! non-vacuity (tests, labelled as such) -/
 example : Gen.psSmallTab.getD (8 * 1 + 3) (0, 0, 0, 0) = (5, 4, 2, 12) := by decide
 example : Gen.psWheel210.getD (48 * 7 + 47) (0, 0, 0, 0) = (6, 2, 0, 336) := by decide
@@ -111,6 +128,7 @@ example : ∃ mi wi, wheelAdd wheel30 1000000 173 30000 = some (mi, wi) ∧ Pos 
 example : wheelAdd wheel30 1000000 173 30000 = some (32, 47) := by decide
 example : wheelAdd wheel210 30500 173 30000 = none := by decide
 example : (SPrime.set 5 32 47).idx = 32 + 47 * 2 ^ 23 := by decide
+example : sievePrimes #[0xff, 0xef] 1 0 0 = [7, 11, 13, 17, 19, 23, 29, 31, 37, 41, 43, 47, 53, 59, 61] := by decide
 
 end Pc.C18Core
 
@@ -123,3 +141,5 @@ end Pc.C18Core
 #print axioms Pc.C18Core.sieving_prime_packing
 #print axioms Pc.C18Core.carry_over_medium
 #print axioms Pc.C18Core.big_visit_correct
+#print axioms Pc.C18Core.extraction_word_correct
+#print axioms Pc.C18Core.extraction_segment_correct
